@@ -66,7 +66,9 @@ def _all_stmts(body):
 
 def _eligible(fn):
     a = fn.args
-    if a.vararg or a.kwarg or a.kwonlyargs or a.posonlyargs:
+    if a.kwarg or a.kwonlyargs or a.posonlyargs:
+        return False
+    if a.vararg and not _vararg_forwarded_only(fn):
         return False
     if any(not isinstance(d, ast.Constant) and not (isinstance(d, ast.UnaryOp) and isinstance(d.operand, ast.Constant)) for d in a.defaults):
         return False
@@ -84,6 +86,14 @@ def _eligible(fn):
                                         or (isinstance(x.func, ast.Attribute) and x.func.attr == fn.name)):
             return False
     return True
+
+
+def _vararg_forwarded_only(fn):
+    """the *args parameter is only ever passed on as `*args` in calls of the body (a template method handing extra
+    arguments through to its callback)"""
+    v = fn.args.vararg.arg
+    starred = {id(x.value) for c in ast.walk(fn) if isinstance(c, ast.Call) for x in c.args if isinstance(x, ast.Starred) and isinstance(x.value, ast.Name) and x.value.id == v}
+    return all(id(n) in starred for n in ast.walk(fn) if isinstance(n, ast.Name) and n.id == v) and bool(starred)
 
 
 def _kind(fn):
@@ -203,6 +213,15 @@ class _Rename(ast.NodeTransformer):
                 def visit_Lambda(self, x):
                     return x
             return ast.copy_location(B().visit(copy.deepcopy(lam.body)), n)
+        if any(isinstance(a, ast.Starred) and isinstance(a.value, ast.Name) and "*" + a.value.id in self.subst for a in n.args):
+            # *args of a template method: the extra arguments of this call, passed on
+            na = []
+            for a in n.args:
+                if isinstance(a, ast.Starred) and isinstance(a.value, ast.Name) and "*" + a.value.id in self.subst:
+                    na.extend(copy.deepcopy(x) for x in self.subst["*" + a.value.id])
+                else:
+                    na.append(a)
+            n.args = na
         return self.generic_visit(n)
 
     def visit_Name(self, n):
@@ -237,8 +256,12 @@ def _bind(fn, kind, call, recv):
         params_rest = params[1:]
     else:
         params_rest = params
+    extra = []
     if len(args) > len(params_rest):
-        return None
+        if not fn.args.vararg:
+            return None
+        extra = args[len(params_rest):]
+        args = args[:len(params_rest)]
     for p, a in zip(params_rest, args):
         bound[p] = a
     for k in call.keywords:
@@ -274,6 +297,16 @@ def _bind(fn, kind, call, recv):
     for v in stored:
         if v not in mapping and v not in bound:
             mapping[v] = tag + v
+    if fn.args.vararg:
+        stars = []
+        for k_, a in enumerate(extra):
+            if _simple_arg(a):
+                stars.append(a)
+            else:
+                nm = "%sva%d" % (tag, k_)
+                prelude.append(ast.Assign(targets=[ast.Name(id=nm, ctx=ast.Store())], value=copy.deepcopy(a)))
+                stars.append(ast.Name(id=nm, ctx=ast.Load()))
+        subst["*" + fn.args.vararg.arg] = stars
     return prelude, mapping, subst, lams
 
 
